@@ -388,5 +388,69 @@ pub fn extra_seeds() -> Vec<(String, Vec<u8>)> {
         hhea[10..12].copy_from_slice(&1002u16.to_be_bytes());
         v.push(("vmtx-hmtx-3-long-of-8".into(), minimal_font(n, &cm, &[(tag(b"vhea"), be::vhea(3, 1002)), (tag(b"vmtx"), be::long_metrics(&long, &rest)), (tag(b"hhea"), hhea), (tag(b"hmtx"), be::long_metrics(&long, &rest))])));
     }
+    // ---- morx ligature subtables whose action lists store more than once (a STORE before the final LAST: several
+    // ligatures formed from one component stack), at the end and in the middle of the battery's Latin run
+    // "AV fi \u{25CC}\u{301}" = glyphs [1, 2, 8, 3, 4, 8, 9, 10]; DONT_ADVANCE together with PERFORM_ACTION; a contextual
+    // subtable in a second chain that substitutes a marked ligature made by the first chain
+    {
+        let set = be::LIG_SET_COMPONENT;
+        let act = be::LIG_PERFORM_ACTION;
+        // end of the run: i (seen, not a component), then space + dotted circle + acute (glyphs 8, 9, 10 at positions 5..=7)
+        let end_machine = |actions: &[u32], components: &[u16]| {
+            be::morx_ligature(
+                &st(8, Lookup::Single(vec![(4, 4), (8, 5), (9, 6), (10, 7)]), vec![vec![0, 0, 0, 0, 1, 0, 0, 0], vec![0, 0, 0, 0, 1, 0, 0, 0], vec![0, 0, 0, 0, 1, 2, 0, 0], vec![0, 0, 0, 0, 1, 0, 3, 0], vec![0, 0, 0, 0, 1, 0, 0, 4]]),
+                &[(0, 0, 0), (2, 0, 0), (3, set, 0), (4, set, 0), (0, set | act, 0)],
+                actions,
+                components,
+                &[5, 7],
+            )
+        };
+        // middle of the run: V + space + f (glyphs 2, 8, 3 at positions 1..=3)
+        let middle_machine = |actions: &[u32], components: &[u16]| {
+            be::morx_ligature(
+                &st(7, Lookup::Single(vec![(2, 4), (3, 6), (8, 5)]), vec![vec![0, 0, 0, 0, 1, 0, 0], vec![0, 0, 0, 0, 1, 0, 0], vec![0, 0, 0, 0, 1, 2, 0], vec![0, 0, 0, 0, 1, 0, 3]]),
+                &[(0, 0, 0), (2, set, 0), (3, set, 0), (0, set | act, 0)],
+                actions,
+                components,
+                &[5, 7],
+            )
+        };
+        // component table: [third, second, first]; the action offsets select these entries from the popped glyph ids.
+        // [plain, STORE, LAST]: third + second -> ligature list[0] (stored), + first -> ligature list[1]
+        let psl = |third: i32, second: i32, first: i32| vec![be::lig_action(0, 0 - third), be::lig_action(be::LIG_ACTION_STORE, 1 - second), be::lig_action(be::LIG_ACTION_LAST, 2 - first)];
+        // [STORE, STORE|LAST]: third -> list[0], + second -> list[1]; the first component stays on the stack
+        let ssl = |third: i32, second: i32| vec![be::lig_action(be::LIG_ACTION_STORE, 0 - third), be::lig_action(be::LIG_ACTION_STORE | be::LIG_ACTION_LAST, 1 - second)];
+        let one_chain = |subtables: Vec<MorxSubtable>| MorxChain { default_flags: 0xFF, features: ligature_features.clone(), subtables };
+        v.push((
+            "morx2-ligature3-actions-plain-store-last".into(),
+            minimal_font(mn, &mcm, &[(tag(b"morx"), be::morx_table(2, mn, &[one_chain(vec![msub(2, 0x04, end_machine(&psl(10, 9, 8), &[0, 0, 1]), None), msub(2, 0x04, middle_machine(&psl(3, 8, 2), &[0, 0, 1]), None)])]))]),
+        ));
+        v.push((
+            "morx2-ligature3-actions-store-store+last".into(),
+            minimal_font(mn, &mcm, &[(tag(b"morx"), be::morx_table(2, mn, &[one_chain(vec![msub(2, 0x04, end_machine(&ssl(10, 9), &[0, 1, 0]), None), msub(2, 0x04, middle_machine(&ssl(3, 8), &[0, 1, 0]), None)])]))]),
+        ));
+        // f + i -> fi where the acting entry also says DONT_ADVANCE: the same glyph is looked at again in state 3, which
+        // either does nothing (first subtable) or makes it a component again (second subtable, A + V -> glyph 7)
+        let two = |first: u16, second: u16, state3_entry: u16, lig: u16| {
+            be::morx_ligature(
+                &st(6, Lookup::Single(if first < second { vec![(first, 4), (second, 5)] } else { vec![(second, 5), (first, 4)] }), vec![vec![0, 0, 0, 0, 1, 0], vec![0, 0, 0, 0, 1, 0], vec![0, 0, 0, 0, 1, 2], vec![0, 0, 0, 0, 1, state3_entry]]),
+                &[(0, 0, 0), (2, set, 0), (3, set | act | be::LIG_DONT_ADVANCE, 0), (0, set, 0)],
+                &[be::lig_action(0, 0 - second as i32), be::lig_action(be::LIG_ACTION_LAST, 1 - first as i32)],
+                &[0, 0],
+                &[lig],
+            )
+        };
+        v.push(("morx2-ligature-perform+dont-advance".into(), minimal_font(mn, &mcm, &[(tag(b"morx"), be::morx_table(2, mn, &[one_chain(vec![msub(2, 0x04, two(3, 4, 0, 5), None), msub(2, 0x04, two(1, 2, 3, 7), None)])]))])));
+        // chain 1 shortens the run (f + i -> fi); chain 2 marks fi and, after space + dotted circle, replaces the marked fi
+        // (-> glyph 7) and the current dotted circle (-> glyph 11)
+        let shorten = one_chain(vec![msub(2, 0x04, ligature(Lookup::Trimmed(3, vec![4, 5])), None)]);
+        let marked = be::morx_contextual(
+            &st(7, Lookup::Single(vec![(5, 4), (8, 5), (9, 6)]), vec![vec![0, 0, 0, 0, 1, 0, 0], vec![0, 0, 0, 0, 1, 0, 0], vec![0, 0, 0, 0, 1, 2, 0], vec![0, 0, 0, 0, 1, 0, 3]]),
+            &[(0, 0, 0xFFFF, 0xFFFF), (2, 0x8000, 0xFFFF, 0xFFFF), (3, 0, 0xFFFF, 0xFFFF), (0, 0, 0, 1)],
+            &[Lookup::Single(vec![(5, 7)]), Lookup::Single(vec![(9, 11)])],
+        );
+        let second = MorxChain { default_flags: 0x1, features: vec![(0, 1, 0, 0)], subtables: vec![msub(1, 0x1, marked, None)] };
+        v.push(("morx2-ligature-chain-then-contextual-mark".into(), minimal_font(mn, &mcm, &[(tag(b"morx"), be::morx_table(2, mn, &[shorten, second]))])));
+    }
     v
 }
